@@ -56,11 +56,12 @@ type airTrace struct {
 	st       airTraceStats
 	// the last line written (operation, observation)
 	lastOp, lastOb string
+	signSeen       map[string]int
 }
 
 func newAirTrace(ops, obs *bufio.Writer) *airTrace {
 	return &airTrace{ops: ops, obs: obs, keyIDs: map[string]int{}, scal: map[string]string{}, sids: map[string]string{},
-		machines: map[*airgapped.Machine]int{}, tainted: map[string]bool{}, polys: map[string]map[int][]kyber.Scalar{},
+		machines: map[*airgapped.Machine]int{}, tainted: map[string]bool{}, polys: map[string]map[int][]kyber.Scalar{}, signSeen: map[string]int{},
 		st: airTraceStats{ByKind: map[string]int{}, Outcomes: map[string]int{}, SkipWhy: map[string]int{}}}
 }
 
@@ -234,6 +235,8 @@ func (t *airTrace) record(c *cluster, n *vnode, cold types.Operation, rb []byte,
 		kind = "responses"
 	case "state_dkg_master_key_await_confirmations":
 		kind = "masterkey"
+	case "state_signing_await_partial_signs":
+		kind = "sign"
 	default:
 		return
 	}
@@ -266,6 +269,44 @@ func (t *airTrace) record(c *cluster, n *vnode, cold types.Operation, rb []byte,
 		return errorObs(&res)
 	}
 	switch kind {
+	case "sign":
+		// signing requests are all alike to the model (own index, the stored share, how many messages): three per machine and round
+		t.signSeen[key]++
+		if t.signSeen[key] > 3 {
+			return
+		}
+		if _, kerr := m.GetBLSKeyrings(); kerr != nil {
+			// the operator's password does not open the key rings: an outside fault the model does not know
+			t.st.Skipped++
+			t.st.SkipWhy["signing request on a machine whose key rings cannot be opened (password)"]++
+			return
+		}
+		var payload responses.SigningPartialSignsParticipantInvitationsResponse
+		var tasks []requests.SigningTask
+		okTok, nTok := "1", "-"
+		if json.Unmarshal(cold.Payload, &payload) != nil || json.Unmarshal(payload.SrcPayload, &tasks) != nil {
+			okTok = "0"
+		} else if msgs, err := requests.TasksToMessages(tasks); err == nil {
+			nTok = fmt.Sprint(len(msgs))
+		}
+		ob, isErr := obsErr()
+		if !isErr {
+			var req requests.SigningProposalBatchPartialSignRequests
+			if len(res.ResultMsgs) != 1 || json.Unmarshal(res.ResultMsgs[0].Data, &req) != nil {
+				ob = "partials unreadable-result"
+			} else {
+				sh := "-"
+				if len(req.PartialSigns) > 0 {
+					sh = "?"
+					if krs, err := m.GetBLSKeyrings(); err == nil && krs[round] != nil {
+						sh = scalarHex(krs[round].Share.V)
+					}
+				}
+				ob = fmt.Sprintf("partials pid=%d n=%d share=%s", req.ParticipantId, len(req.PartialSigns), sh)
+			}
+		}
+		t.emit(fmt.Sprintf("sign %d %s %s %s", mid, strTok(round), okTok, nTok), ob)
+		outcome(ob)
 	case "commits":
 		var payload responses.DKGProposalPubKeysParticipantResponse
 		if json.Unmarshal(cold.Payload, &payload) != nil {
